@@ -102,7 +102,12 @@ func (c ControlHandler) HandlePing(h ws.Header) error {
 		r = NewCipherReader(r, h.Mask)
 	}
 
-	_, err := io.Copy(w, r)
+	// Take the payload of this frame and nothing else: Src may be the
+	// connection itself, on which other frames follow.
+	n, err := io.Copy(w, io.LimitReader(r, h.Length))
+	if err == nil && n != h.Length {
+		err = io.ErrUnexpectedEOF
+	}
 	if err == nil {
 		err = w.Flush()
 	}
@@ -123,7 +128,10 @@ func (c ControlHandler) HandlePong(h ws.Header) error {
 	// A Pong frame MAY be sent unsolicited. This serves as a
 	// unidirectional heartbeat. A response to an unsolicited Pong frame
 	// is not expected.
-	_, err := io.CopyBuffer(ioutil.Discard, c.Src, buf)
+	n, err := io.CopyBuffer(ioutil.Discard, io.LimitReader(c.Src, h.Length), buf)
+	if err == nil && n != h.Length {
+		err = io.ErrUnexpectedEOF
+	}
 
 	return err
 }
